@@ -284,6 +284,61 @@ def main():
         .create_bid("buyer", [], B1, (100, "q"), "1", "q2", 1000, 1000).create_bid("buyer", [], B2, (100, "q2"), "1", "q2", 1000, 1000) \
         .create_bid("buyer", [(1100, "q")], B1, (100, "q"), "1", "q", 1000, 1000) \
         .create_ask("seller", [(1000, "base")], A1, "base", "q2", "1", 1000).match("exec", A1, B2, "1", 500).write()
+    H("c02_rate_beyond_18_decimals", "fee rates with more than 18 decimals whose product sits a hair below a tie").env() \
+        .inst(afr="0.4999999999999999999", afa="feea", bfr="0.04999999999999999999", bfa="feeb") \
+        .create_ask("seller", [(30, "base")], A1, "base", "q", "1", 30).create_bid("buyer", [(31, "q")], B1, (1, "q"), "1", "q", 30, 30) \
+        .match("exec", A1, B1, "1", 1).match("exec", A1, B1, "1", 3).match("exec", A1, B1, "1", 10).exits(owner_a="seller", owner_b="buyer") \
+        .create_bid("buyer", [(10, "q")], B2, None, "1", "q", 10, 10).create_bid("buyer", [(10, "q")], B2, (0, "q"), "1", "q", 10, 10) \
+        .modify("exec", afr="0.000833333333333333333", afa="feea").write()
+    H("c02_rate_truncated_fraction", "rate 1/1200 written to 21 places against a match worth 600").env() \
+        .inst(afr="0.000833333333333333333", afa="feea") \
+        .create_ask("seller", [(1800, "base")], A1, "base", "q", "1", 1800).create_bid("buyer", [(1800, "q")], B1, None, "1", "q", 1800, 1800) \
+        .match("exec", A1, B1, "1", 600).match("exec", A1, B1, "1", 1200).write()
+    H("c09_fee_product_association", "a bid fee whose rate and price together need more than 28 decimals, near a tie").env() \
+        .inst(precision=18, increment=10 ** 18, bfr="0.000000000025", bfa="feeb") \
+        .create_bid("buyer", [(8750000220000000003 + 218750006, "q")], B1, (218750006, "q"), "1.250000031428571429", "q", 8750000220000000003, 7 * 10 ** 18) \
+        .create_bid("buyer", [(8750000220000000003 + 218750005, "q")], B2, (218750005, "q"), "1.250000031428571429", "q", 8750000220000000003, 7 * 10 ** 18) \
+        .exits(owner_b="buyer").write()
+    H("c12_rate_beyond_18_decimals", "a new rate that equals the configured one in its first 18 decimals only").env() \
+        .inst(afr="0.01", afa="feea", bfr="0.01", bfa="feeb") \
+        .create_ask("seller", [(5, "base")], A1, "base", "q", "2", 5).create_bid("buyer", [(10, "q")], B1, None, "2", "q", 10, 5) \
+        .modify("exec", afr="0.0100000000000000004", afa="feea").modify("exec", bfr="0.01000000000000000049", bfa="feeb") \
+        .modify("exec", afr="0.0100000000000000000", afa="feea").modify("exec", afr="0.01000000000000000000000000004", afa="feea") \
+        .query("get_contract_info").write()
+    H("c03_c08_denominations_inside_one_another", "quote and base names that contain one another").env(markers={"hash": "R"}) \
+        .inst(base="nhash.usd", conv=("cv", "usd"), quotes=("nhash", "hash")) \
+        .create_ask("seller", [(100, "nhash.usd")], A1, "nhash.usd", "nhash", "2", 100).create_bid("buyer", [], B1, None, "2", "hash", 200, 100, base="nhash.usd") \
+        .match("exec", A1, B1, "2", 100).create_bid("buyer", [(200, "nhash")], B2, None, "2", "nhash", 200, 100, base="nhash.usd") \
+        .create_ask("seller", [(100, "cv")], A2, "cv", "hash", "2", 100).approve("appr", [(100, "usd")], A2, "usd", 100) \
+        .approve("appr", [(100, "nhash")], A2, "nhash", 100).approve("appr", [(100, "nhash.usd")], A2, "nhash.usd", 100) \
+        .match("exec", A2, B2, "2", 100).match("exec", A2, B1, "2", 100).write()
+    H("c05_senders_in_another_case", "privileged requests from accounts that differ from the entitled one in letter case only").env().inst() \
+        .create_ask("seller", [(5, "base")], A1, "base", "q", "2", 5).create_bid("buyer", [(10, "q")], B1, None, "2", "q", 10, 5) \
+        .create_ask("seller", [(5, "cv")], A2, "cv", "q", "2", 5) \
+        .rev("cancel_bid", "BUYER", B1).rev("cancel_ask", "Seller", A1).rev("expire_bid", "EXEC", B1).rev("reject_ask", "Exec", A1, 1) \
+        .match("EXEC", A1, B1, "2", 5).modify("EXEC", executors=["exec", "mallory"]).approve("APPR", [(5, "base")], A2, "base", 5).write()
+    H("c13_precision_modulo", "price precisions that are small only modulo 2^32 or 2^64").env() \
+        .inst(precision=2 ** 32 + 2, increment=100).inst(precision=2 ** 32, increment=1).inst(precision=7 * 2 ** 32 + 18, increment=10 ** 18) \
+        .inst(precision=2 ** 64 + 6, increment=3000000).inst(precision=256, increment=1).inst(precision=2 ** 127, increment=1).inst(precision=2, increment=100).write()
+    for ver in ("0.19.0+hotfix.1", "0.16.2+x", "0.19.1+x"):
+        h = H("c14_build_metadata_" + ver.replace(".", "_").replace("+", "_"), "migration from a version with build metadata: " + ver + " migration").env()
+        h.lines += ["SEEDCFG ats ~ base cv q appr exec - feeb=0.1 [] [] 0 10", "SEEDVER ats_smart_contract " + ver,
+                    "SEEDBID2 %s %s buyer base 100 q 200 20:q 2 F:20:40:4" % (enc(B1), enc(B1)),
+                    "SEEDASK %s %s seller basic base q 2 100" % (enc(A1), enc(A1))]
+        h.migrate().query("get_version_info").query("get_bid", B1).rev("cancel_bid", "buyer", B1, probe=True).match("exec", A1, B1, "2", 10).write()
+    h = H("c06_c15_legacy_ids_in_other_spellings", "legacy orders stored under upper-case, braced and urn ids; a foreign base denomination migration").env(markers={"base": "R"})
+    U1, U2, U3 = B1.upper(), "{" + B2 + "}", "urn:uuid:" + A2
+    h.lines += ["SEEDCFG ats ~ base cv q appr exec - feeb=0.1 [] [] 0 10", "SEEDVER ats_smart_contract 0.18.2",
+                "SEEDBID2 %s %s buyer base 100 q 200 20:q 2 F:20:40:4" % (enc(U1), enc(U1)),
+                "SEEDBID2 %s %s buyer2 base 100 q 200 20:q 2 J:30:60:6" % (enc(U2), enc(U2)),
+                "SEEDBID2 %s %s buyer oldbase 100 q 200 - 2 []" % (enc(B1.replace("0", "1")), enc(B1.replace("0", "1"))),
+                "SEEDASK %s %s seller basic base q 2 100" % (enc(U3), enc(U3)),
+                "SEEDASK %s %s seller ready:appr:base:50 cv q 2 50" % (enc(A1), enc(A1))]
+    h.migrate().query("get_bid", U1).query("get_bid", B1).query("get_bid", U2).query("get_ask", U3).query("get_ask", A2)
+    for i, o in ((U1, "buyer"), (U2, "buyer2"), (B1, "buyer"), (B1.replace("0", "1"), "buyer")):
+        h.rev("cancel_bid", o, i, probe=True).rev("expire_bid", "exec", i, probe=True)
+    h.rev("cancel_ask", "seller", U3, probe=True).rev("expire_ask", "exec", U3, probe=True).rev("reject_bid", "exec", U1, 10).rev("cancel_bid", "buyer", U1) \
+        .match("exec", A1, B1.replace("0", "1"), "2", 10).write()
     # known numeric classes (recorded findings): witnesses live in corpus/known/
     H("k_inexact_match", "K_inexact: precision 18, increment 1e18, price 0.999999999999999999, size 1e18+1").env() \
         .inst(precision=18, increment=10 ** 18) \
